@@ -4,6 +4,8 @@ package c13
 
 import (
 	"fmt"
+	"os"
+	"strconv"
 	"strings"
 
 	"github.com/ohler55/slip"
@@ -90,7 +92,7 @@ func Run(ctx *common.Ctx) {
 			}
 			return false
 		}
-		sensible := ctx.Rng.Chance(75)
+		sensible := ctx.Rng.Chance(50)
 		// focus: most operations of a history concern one variable, one function and one exporting
 		// package, so that export / unexport / re-export, several users, own definitions in users
 		// and redefinitions interact within a few steps
@@ -121,24 +123,67 @@ func Run(ctx *common.Ctx) {
 		// scripted openings (25% of the histories): sequences of steps that a random walk rarely produces,
 		// followed by random steps (added after seeded changes C13-5 and C13-6 were missed)
 		var forced [][5]int // p, q, vn, fn, x
-		if ctx.Rng.Chance(25) {
+		if ctx.Rng.Chance(35) {
 			u := (pe + 1 + ctx.Rng.Intn(2)) % 3
+			w := 3 - pe - u
 			step := func(p, q, x int) [5]int { return [5]int{p, q, fv, ff, x} }
-			switch ctx.Rng.Intn(4) {
+			// x: <12 in-package p; <27 use q in p; <33 unuse q in p; <43 export var in p; <51 export fun in p;
+			// <56 unexport var; <60 unexport fun; <72 setq; <78 defvar; <90 defun; <95 makunbound; else fmakunbound
+			switch ctx.Rng.Intn(18) {
 			case 0: // a package used twice, unused once, and only then an export in the used package
 				forced = [][5]int{step(u, pe, 20), step(u, pe, 20), step(u, pe, 30), step(pe, 0, 5), step(0, 0, 65), step(0, 0, 85), step(pe, 0, 40), step(pe, 0, 48)}
 			case 1: // own definitions on both sides, then unexport (of names never exported) in the used package
 				forced = [][5]int{step(pe, 0, 5), step(0, 0, 65), step(0, 0, 85), step(u, 0, 5), step(0, 0, 65), step(0, 0, 85), step(u, pe, 20), step(pe, 0, 53), step(pe, 0, 58)}
 			case 2: // own definitions on both sides, export, unexport, export again
 				forced = [][5]int{step(u, 0, 5), step(0, 0, 65), step(0, 0, 85), step(pe, 0, 5), step(0, 0, 65), step(0, 0, 85), step(u, pe, 20), step(pe, 0, 40), step(pe, 0, 48), step(pe, 0, 53), step(pe, 0, 58), step(pe, 0, 40)}
-			default: // two users of one exporter, one of them leaves and comes back
-				w := 3 - pe - u
+			case 3: // two users of one exporter, one of them leaves and comes back
 				forced = [][5]int{step(pe, 0, 5), step(0, 0, 65), step(0, 0, 85), step(pe, 0, 40), step(pe, 0, 48), step(u, pe, 20), step(w, pe, 20), step(u, pe, 30), step(u, pe, 20), step(pe, 0, 53)}
+			// the histories of the repaired defects (formerly outside the guard)
+			case 4: // unuse keeps own definitions; private entries of the remaining used package stay invisible
+				forced = [][5]int{step(u, 0, 5), step(0, 0, 65), step(0, 0, 85), step(w, 0, 5), step(0, 0, 65), step(0, 0, 85), step(u, pe, 20), step(u, w, 20), step(u, pe, 30), step(u, w, 30)}
+			case 5: // a private variable set twice is not pushed to the users
+				forced = [][5]int{step(u, pe, 20), step(pe, 0, 5), step(0, 0, 65), step(0, 0, 65), step(0, 0, 74), step(pe, 0, 40), step(0, 0, 65)}
+			case 6: // use of a package exporting names the package owns
+				forced = [][5]int{step(u, 0, 5), step(0, 0, 65), step(0, 0, 85), step(pe, 0, 5), step(0, 0, 65), step(0, 0, 85), step(pe, 0, 40), step(pe, 0, 48), step(u, pe, 20), step(0, 0, 92), step(0, 0, 97), step(u, 0, 5), step(0, 0, 92), step(0, 0, 97)}
+			case 7: // fmakunbound / makunbound of exported definitions with users
+				forced = [][5]int{step(pe, 0, 5), step(0, 0, 65), step(0, 0, 85), step(pe, 0, 40), step(pe, 0, 48), step(u, pe, 20), step(w, pe, 20), step(0, 0, 97), step(0, 0, 92), step(0, 0, 85), step(0, 0, 65)}
+			case 8: // export before definition, with a user
+				forced = [][5]int{step(u, pe, 20), step(pe, 0, 5), step(pe, 0, 48), step(pe, 0, 40), step(0, 0, 85), step(0, 0, 65), step(0, 0, 97), step(0, 0, 85), step(pe, 0, 58), step(0, 0, 97), step(0, 0, 85)}
+			case 9: // defun on an inherited function, then unexport in the home package, then own defun
+				forced = [][5]int{step(pe, 0, 5), step(0, 0, 85), step(pe, 0, 48), step(u, pe, 20), step(u, 0, 5), step(0, 0, 85), step(pe, 0, 58), step(0, 0, 85), step(pe, 0, 5), step(0, 0, 85)}
+			case 10: // makunbound / fmakunbound of inherited definitions
+				forced = [][5]int{step(pe, 0, 5), step(0, 0, 65), step(0, 0, 85), step(pe, 0, 40), step(pe, 0, 48), step(u, pe, 20), step(u, 0, 5), step(0, 0, 92), step(0, 0, 97), step(0, 0, 65), step(0, 0, 85)}
+			case 11: // unexport in the using package
+				forced = [][5]int{step(pe, 0, 5), step(0, 0, 65), step(0, 0, 85), step(pe, 0, 40), step(pe, 0, 48), step(u, pe, 20), step(u, 0, 53), step(u, 0, 58), step(pe, 0, 53)}
+			case 12: // the exported symbol left behind by fmakunbound is inherited, then defun in the user
+				forced = [][5]int{step(pe, 0, 5), step(0, 0, 85), step(pe, 0, 48), step(0, 0, 97), step(u, pe, 20), step(u, 0, 5), step(0, 0, 85), step(u, 0, 58), step(pe, 0, 5), step(0, 0, 85)}
+			case 13: // export of an undefined variable, set in the user and in the exporter, unexport
+				forced = [][5]int{step(u, pe, 20), step(pe, 0, 40), step(u, 0, 5), step(0, 0, 65), step(pe, 0, 5), step(0, 0, 65), step(pe, 0, 53), step(0, 0, 92)}
+			case 14: // two used packages export the same names: retraction and precedence
+				forced = [][5]int{step(pe, 0, 5), step(0, 0, 65), step(0, 0, 85), step(pe, 0, 40), step(pe, 0, 48), step(w, 0, 5), step(0, 0, 65), step(0, 0, 85), step(w, 0, 40), step(w, 0, 48), step(u, pe, 20), step(u, w, 20), step(pe, 0, 53), step(pe, 0, 58)}
+			case 15: // two users, the first has own definitions of the names, then the exporter defines and exports, unexports, exports again
+				forced = [][5]int{step(u, 0, 5), step(0, 0, 65), step(0, 0, 85), step(u, pe, 20), step(w, pe, 20), step(pe, 0, 5), step(0, 0, 65), step(0, 0, 85), step(pe, 0, 40), step(pe, 0, 48), step(pe, 0, 53), step(pe, 0, 58), step(pe, 0, 40), step(pe, 0, 48)}
+			case 16: // the same with the users in the other order
+				forced = [][5]int{step(u, 0, 5), step(0, 0, 65), step(0, 0, 85), step(w, pe, 20), step(u, pe, 20), step(pe, 0, 5), step(0, 0, 65), step(0, 0, 85), step(pe, 0, 40), step(pe, 0, 48), step(pe, 0, 53), step(pe, 0, 58), step(pe, 0, 40), step(pe, 0, 48)}
+			default: // chain u -> pe -> w (transitive inheritance), then changes in w
+				forced = [][5]int{step(w, 0, 5), step(0, 0, 65), step(0, 0, 85), step(w, 0, 40), step(w, 0, 48), step(pe, w, 20), step(u, pe, 20), step(w, 0, 53), step(u, w, 20), step(u, pe, 30)}
 			}
 			ctx.Hist("scripted-opening")
 			if L < len(forced)+2 {
 				L = len(forced) + 2
 			}
+		}
+		// recording a regression case (coq/C13/Regress.v): C13_FORCED="p,q,vn,fn,x;..." replaces the first history
+		if env := os.Getenv("C13_FORCED"); env != "" && k == 0 {
+			forced = forced[:0]
+			for _, t := range strings.Split(env, ";") {
+				var st [5]int
+				for i, f := range strings.Split(t, ",") {
+					st[i], _ = strconv.Atoi(strings.TrimSpace(f))
+				}
+				forced = append(forced, st)
+			}
+			L = len(forced)
 		}
 		for i := 0; i < L; i++ {
 			var lisp, g string
@@ -154,28 +199,17 @@ func Run(ctx *common.Ctx) {
 					case x < 12:
 					case x < 27:
 						ok = p != q
-						for n := 0; n < 2 && ok; n++ {
-							if ownV[q][n] && expV[q][n] && visV(p, n) || ownF[q][2+n] && expF[q][2+n] && visF(p, 2+n) {
-								ok = false
-							}
-						}
 					case x < 33:
-						ok = ctx.Rng.Chance(20)
-					case x < 43:
-						ok = ownV[p][vn]
 					case x < 51:
-						ok = ownF[p][2+fn]
 					case x < 56:
-						ok = ownV[p][vn] && expV[p][vn]
+						ok = ownV[p][vn]
 					case x < 60:
-						ok = ownF[p][2+fn] && expF[p][2+fn]
-					case x < 78:
+						ok = ownF[p][2+fn]
 					case x < 90:
-						ok = ownF[cur][2+fn] || !visF(cur, 2+fn)
 					case x < 95:
-						ok = ownV[cur][vn]
+						ok = visV(cur, vn)
 					default:
-						ok = ownF[cur][2+fn] && !expF[cur][2+fn]
+						ok = visF(cur, 2+fn)
 					}
 					if ok {
 						break
@@ -282,7 +316,7 @@ func Run(ctx *common.Ctx) {
 		}
 	}
 	ctx.Meta.DistinctNontrivial = len(distinct)
-	ctx.Meta.Rule = "random histories (2..12 ops, thorough 2..14; 70% focused on one variable, one function and one exporting package) over 3 fresh packages x {in-package, use-package, unuse-package, export, unexport, setq, defvar, defun, makunbound, fmakunbound} x 2 variable and 2 function names; after every step 84 resolutions (3 current packages x 4 names x {plain, p:, p::} x 3 packages); distinct = distinct op sequences (all have >= 2 ops)"
+	ctx.Meta.Rule = "random histories (2..12 ops, thorough 2..14; 70% focused on one variable, one function and one exporting package; 35% start with one of 18 scripted openings of 7..14 steps, one per repaired finding of C13: unuse, private setq, use over own names, (f)makunbound of exported and of inherited names, export before definition, defun on inherited names, unexport in a user, two exporters of one name, use chains) over 3 fresh packages x {in-package, use-package, unuse-package, export, unexport, setq, defvar, defun, makunbound, fmakunbound} x 2 variable and 2 function names; after every step 84 resolutions (3 current packages x 4 names x {plain, p:, p::} x 3 packages); distinct = distinct op sequences (all have >= 2 ops)"
 	header := "From C13 Require Import Model Spec Corr.\nOpen Scope Z_scope.\n"
 	footer := "Definition res := Eval vm_compute in check_all cases.\nPrint res.\n" +
 		"Definition gcount := Eval vm_compute in guard_count cases.\nPrint gcount.\n"
